@@ -192,6 +192,8 @@ macro_rules! seq {
     };
 }
 
+// one update
+seq!(sp_i_iter, 3, [ins], consume q_iter);
 // two updates
 seq!(sp_ii_get, 3, [ins, ins], q_get);
 seq!(sp_ii_next, 3, [ins, ins], q_next);
